@@ -346,7 +346,9 @@ def rule_acyclic(ctx):
                     lst = c.args[0].id
                     # new_file_is = [file.i for file, _, _, new_relation in resolved if new_relation]
                     asg = [s for s in stmts_of(fi2) if isinstance(s, ast.Assign) and ast.unparse(s.targets[0]) == lst]
-                    guard_ok = any(isinstance(s.value, ast.ListComp) and s.value.generators[0].ifs and "new_relation" in ast.unparse(s.value.generators[0].ifs[0]) for s in asg)
+                    # the batch must cover every edge that is inserted: its filter is exactly the insertion condition
+                    # (a narrower filter, e.g. `new_relation and not detached`, leaves inserted edges unchecked)
+                    guard_ok = any(isinstance(s.value, ast.ListComp) and len(s.value.generators) == 1 and [ast.unparse(i) for i in s.value.generators[0].ifs] in ([], ["new_relation"]) for s in asg)
                     cond_ok = "if new_relation else None" in ast.unparse(cs.node).replace("(", "").replace(")", "") or "if new_relation" in ast.unparse(_enclosing_ifexp(fi2.node, cs.node) or cs.node)
                     ok = guard_ok and cond_ok
                     why = f"check over {lst} (filter on new_relation: {guard_ok}); edge inserted only when new_relation: {cond_ok}"
@@ -568,6 +570,7 @@ def _drop_trigger(name, file):
 
 
 MUTANTS = [
+    Mutant("cycle-check-skips-detached-inputs", "workflow.py", in_function("Workflow._supply_files", replace_once("new_file_is = [file.i for file, _, _, new_relation in resolved if new_relation]", "new_file_is = [file.i for file, _, detached, new_relation in resolved if new_relation and not detached]")), ("R-C09-4",)),
     Mutant("reattach-no-creator-chain-check", "trellis.py", in_function("Node.reattach", replace_once("        self.check_creator_acyclic(new_creator)\n", "")), ("R-C09-8",)),
     Mutant("create-no-self-creator-check", "trellis.py", in_function("Trellis.create", replace_once("            if creator is not None and creator.i == node.i:\n                raise CyclicError(f\"Node ({node.key()}) cannot be created by itself.\")\n", "")), ("R-C09-8",)),
     Mutant("creator-chain-wrong-direction", "trellis.py", in_function("Node.check_creator_acyclic", lambda s: s.replace("(new_creator.i,)", "(self.i,)", 1).replace("row[0] == self.i", "row[0] == new_creator.i", 1) if "(new_creator.i,)" in s else None), ("R-C09-8",)),
